@@ -15,7 +15,7 @@ PROPERTY = "C12"
 LEVEL = "exploration"
 RULE = ("LHS: 1..4 parameters x N=1..4 with every pair of column permutations (<=2 columns; otherwise every single permutation "
         "shared by the columns and every rotation) x uniform draws all-0 / all-.5 / all-(1-2^-53) and every <=2 cells deviating; "
-        "N=5..8 with seeded permutations; Halton: N<=64 over all boxes plus every N = b^e-1, b^e, b^e+1 <= 1100 (thorough 60000) for the six bases, 1..6 parameters; grid: k=2..5 for 1..3 parameters, k=6..60 (thorough 120) for one parameter over 11 boxes, k=6..14 for two; random: counts 0..5 with "
+        "N=5..8 with seeded permutations; Halton: N<=64 over all boxes plus every N = b^e-1, b^e, b^e+1 <= 1100 (thorough 60000) for the six bases, 1..6 parameters; grid: k=2..5 for 1..3 parameters, k=6..60 (thorough 120) for one parameter over 11 boxes, k=6..14 for two; every deterministic generator object used repeatedly (returned designs overwritten by the caller, bounds changed in place); random: counts 0..5 with "
         "draws at the extremes; boxes from the common list. Non-trivial = N>=2 or >=2 parameters; distinct = distinct configurations.")
 ASSUMPTIONS = ["numpy's RandomState.rand/permutation are replaced by scripted answers with the same contract "
                "(values in [0,1), a permutation of range(N))",
@@ -210,6 +210,59 @@ def check_grid(nparams, shift, k):
     return []
 
 
+def check_reuse(gen, nparams, shift, arg):
+    """One generator object used repeatedly: the caller modifies a returned design in place, then asks again; then the
+    bounds of the shared parameter list are changed in place and a new design is requested."""
+    from artap import operators as ops
+    import copy
+    ps = grid_params(nparams, shift)
+
+    def make():
+        if gen == "uniform":
+            g = ops.UniformGenerator(ps)
+            g.init(arg)
+        elif gen == "halton":
+            g = ops.HaltonGenerator(ps)
+            g.init(arg)
+        elif gen == "fullfact":
+            g = ops.FullFactorGenerator(ps)
+            g.init(arg)
+        elif gen == "pb":
+            g = ops.PlackettBurmanGenerator(ps)
+        else:
+            g = ops.BoxBehnkenGenerator(ps)
+        return g
+    desc = "%s nparams=%d shift=%d arg=%r reused" % (gen, nparams, shift, arg)
+    try:
+        g = make()
+        first = [list(map(float, r)) for r in g.generate()]
+        r1 = g.generate()
+        for row in r1:
+            for i in range(len(row)):
+                row[i] = 12345.0            # the caller scribbles over what it was given
+        second = [list(map(float, r)) for r in g.generate()]
+        fresh = [list(map(float, r)) for r in make().generate()]
+    except Exception as e:
+        return [("C12:reuse:%s:exception:%s" % (gen, type(e).__name__), "%s raised %r" % (desc, e))]
+    out = []
+    if second != first or fresh != first:
+        out.append(("C12:reuse:%s:result-depends-on-earlier-calls" % gen,
+                    "%s: first call %r..., after the caller modified a returned design %r..., fresh object %r..." % (desc, first[:2], second[:2], fresh[:2])))
+        return out
+    # bounds changed in place afterwards: the next design must follow the declared bounds
+    try:
+        for p in ps:
+            lb, ub = p["bounds"]
+            p["bounds"][0], p["bounds"][1] = lb + 1.0, ub + 3.0
+        moved = [list(map(float, r)) for r in g.generate()]
+        expect = [list(map(float, r)) for r in make().generate()]
+    except Exception as e:
+        return [("C12:reuse:%s:exception:%s" % (gen, type(e).__name__), "%s raised %r after the bounds changed" % (desc, e))]
+    if moved != expect:
+        out.append(("C12:reuse:%s:stale-bounds" % gen, "%s: after the bounds were changed the reused object returned %r..., a fresh one %r..." % (desc, moved[:2], expect[:2])))
+    return out
+
+
 class _Forced:
     def __init__(self, vals):
         self.vals = list(vals)
@@ -317,6 +370,13 @@ def _shard(shard, col: Collector):
         for k in range(6, 15):
             for shift in (0, len(BOXES), len(BOXES) + 1):
                 rec("grid", {"nparams": 2, "shift": shift, "k": k}, check_grid(2, shift, k), True)
+        for gen, args in (("uniform", (2, 3, 5)), ("halton", (1, 5)), ("fullfact", (False, True)), ("pb", (None,)), ("bb", (None,))):
+            for nparams in (1, 2, 3, 4):
+                if gen == "bb" and nparams < 3:
+                    continue
+                for shift in (0, 2, 7):
+                    for arg in args:
+                        rec("reuse", {"gen": gen, "nparams": nparams, "shift": shift, "arg": arg}, check_reuse(gen, nparams, shift, arg), True)
         col.sample({"kind": "grid", "nparams": 2, "k": 4}, 1)
     elif kind == "random":
         for nparams in (1, 2, 3, 4):
@@ -340,6 +400,8 @@ def replay(sub, case):
         return check_halton(case["nparams"], case["shift"], case["N"])
     if sub == "grid":
         return check_grid(case["nparams"], case["shift"], case["k"])
+    if sub == "reuse":
+        return check_reuse(case["gen"], case["nparams"], case["shift"], case["arg"])
     if sub == "random":
         return check_random(case["nparams"], case["shift"], case["count"], case["draws"], case["precision"])
     raise ValueError(sub)
